@@ -19,7 +19,7 @@ RULE = ("the entropy function handed to the library is a recording stream (event
 ASSUMPTIONS = ["the model encodes the anchored mechanism (top bitlen(n-2) bits of bitlen(n-2)//8+1 bytes, +1, reject >= n)",
                "uniformity is derived: equal split of accepted first chunks + fresh bytes after rejection (observed in the log)"]
 REQUIRED = {"quick": ["randrange.enum", "randrange.adversarial", "randrange.rejected_ge2", "generate", "sign.entropy", "sign_digest.entropy",
-                      "sign_number.entropy", "replay_same_stream", "key_then_nonce_disjoint", "seed.trytryagain", "seed.overshoot", "prng"]}
+                      "sign_number.entropy", "replay_same_stream", "key_then_nonce_disjoint", "seed.trytryagain", "seed.overshoot", "prng", "default_entropy.fork", "concurrent_calls", "reentrant_calls"]}
 EXHAUSTIVE = {"quick": ["randrange: all first chunks for every n in [2,80], n within +-2 of 2^j (j<=12): exact output distribution"],
               "thorough": ["randrange: all first chunks for every n in [2,512], sampled n to 2^12, n within +-2 of 2^j (j<=16)"]}
 
@@ -37,6 +37,8 @@ def shards(tier, seed):
         out.append(("keys_%s" % c.name, dict(kind="keys", cname=c.name, count=6 if q else 60)))
     out.append(("toykeys", dict(kind="toykeys", count=4 if q else 12)))
     out.append(("seed_helpers", dict(kind="seed", top=1 << (9 if q else 12))))
+    out.append(("concurrent", dict(kind="concurrent", runs=120 if q else 1500)))
+    out.append(("default_entropy", dict(kind="default_entropy", rounds=6 if q else 40)))
     return out
 
 
@@ -243,6 +245,80 @@ def run(ctx, name, kind, **kw):
                         sig2 = sk3.sign(msg, entropy=st2, sigencode=util.sigencode_strings)
                         ctx.case("replay_same_stream", key=key + "|sig")
                         ctx.check(sig2 == sig, "signature_not_replayable", "%s: same stream, different signature" % curve.name, dict(curve=curve.name))
+    elif kind == "concurrent":
+        # draws for DIFFERENT orders, each from its own stream, from 2-3 threads (a switch possible at every line of util.py), and
+        # re-entered on one thread: each call must return what its own stream gives and consume exactly the modelled bytes
+        from vf import sched as S
+        jobs = []
+        orders = [lib.dom_of(c).n for c in lib.ALL_CURVES[::2]] + [2, 3, 5, 251, 257, 65537, 2 ** 127 - 1, 2 ** 64, 2 ** 64 + 13]
+        for n in orders:
+            for _ in range(2):
+                data = bytes(rng.getrandbits(8) for _ in range(40 * ((n.bit_length() + 7) // 8 + 1)))
+                if rng.random() < 0.3:
+                    data = b"\xff" * ((n.bit_length()) // 8 + 1) * rng.randrange(1, 3) + data
+                m = model_randrange(n, data)
+                if m is None:
+                    continue
+
+                def job(n=n, data=data):
+                    st = sigs.Stream(data)
+                    return (util.randrange(n, st), st.pos)
+                jobs.append(("randrange", job, (), (m[0], m[1])))
+        for n in orders[:6]:
+            for fname in ("randrange_from_seed__trytryagain", "randrange_from_seed__overshoot_modulo"):
+                seed = bytes(rng.getrandbits(8) for _ in range(9))
+                f = getattr(util, fname)
+                if n > 2:
+                    jobs.append((fname, f, (seed, n), f(seed, n)))
+        S.concurrent_purity(ctx, S.codes_of(util), jobs, rng, kw["runs"])
+        S.reentrant_purity(ctx, S.codes_of(util), jobs, rng, max(12, kw["runs"] // 6))
+    elif kind == "default_entropy":
+        # with no entropy function given the library reads the operating system's generator.  Two processes that share a history
+        # (fork) must still draw DIFFERENT values: state buffered in the library before the fork would be replayed in both
+        import os
+        curve = lib.BY_NAME["NIST256p"]
+        n = lib.dom_of(curve).n
+        seen_vals = set()
+        for rd in range(kw["rounds"]):
+            ecdsa.SigningKey.generate(curve)       # warm: any buffer the library keeps is filled now
+            util.randrange(n)
+            r_, w_ = os.pipe()
+            pid = os.fork()
+            if pid == 0:
+                try:
+                    os.close(r_)
+                    a = ecdsa.SigningKey.generate(curve).privkey.secret_multiplier
+                    b_ = util.randrange(n)
+                    sk_c = ecdsa.SigningKey.from_secret_exponent(12345, curve, hashlib.sha256)
+                    sg = sk_c.sign(b"fork", sigencode=util.sigencode_string)
+                    os.write(w_, ("%x %x %s" % (a, b_, sg.hex())).encode())
+                finally:
+                    os._exit(0)
+            os.close(w_)
+            a = ecdsa.SigningKey.generate(curve).privkey.secret_multiplier
+            b_ = util.randrange(n)
+            sk_p = ecdsa.SigningKey.from_secret_exponent(12345, curve, hashlib.sha256)
+            sg = sk_p.sign(b"fork", sigencode=util.sigencode_string)
+            buf = b""
+            while True:
+                chunk = os.read(r_, 65536)
+                if not chunk:
+                    break
+                buf += chunk
+            os.close(r_)
+            os.waitpid(pid, 0)
+            parts = buf.decode().split()
+            if len(parts) != 3:
+                ctx.count("fork_child_failed")
+                continue
+            ca, cb, csg = int(parts[0], 16), int(parts[1], 16), bytes.fromhex(parts[2])
+            ctx.case("default_entropy.fork", key=str(rd), nontrivial=True, sample=dict(parent_key=a, child_key=ca) if ctx.want("default_entropy.fork") else None)
+            ctx.check(a != ca, "forked_processes_draw_the_same_key", "after fork(), parent and child SigningKey.generate(NIST256p) both gave d=%d" % a, dict(d=a))
+            ctx.check(b_ != cb, "forked_processes_draw_the_same_scalar", "after fork(), parent and child util.randrange(n) both gave %d" % b_, dict(v=b_))
+            ctx.check(sg[:32] != csg[:32], "forked_processes_draw_the_same_nonce", "after fork(), parent and child sign() of the same message with the same key used the same nonce (equal r): the private key is recoverable from the two signatures", dict(r=sg[:32]))
+            for v in (a, b_, ca, cb):
+                ctx.check(1 <= v < n and v not in seen_vals, "default_entropy_repeats_or_out_of_range", "default-entropy draw %d repeated or out of range" % v, dict(v=v))
+                seen_vals.add(v)
     elif kind == "seed":
         orders = list(range(2, kw["top"] + 1, 1 if kw["top"] <= 512 else 3)) + [lib.dom_of(c).n for c in lib.ALL_CURVES]
         for n in orders:
